@@ -17,7 +17,7 @@ LEVEL_TEXT = ('Bounded symbolic verification through the real Flask view functio
               'the request with symbolic field values (+ LOCAL_PREF 100 iff remote AS = local AS, both symbolic).')
 LEVEL_NOTE = ('Werkzeug header / JSON parsing, TLS and the WSGI thread hand-off are stubbed at get_auth / get_json / jsonify '
               '(vf/env/rest.py) and outside the claim; callFromThread runs inline.')
-LEVEL_ADDED = 'Also: LOCAL_PREF symbolic (including 0 on iBGP); authentication obligations in Idle as well at the quick tier; OPTIONS where a rule lists it explicitly. Extended communities (route targets with symbolic administrator, colour) in the faithful-send obligations.'
+LEVEL_ADDED = 'Also: LOCAL_PREF symbolic (including 0 on iBGP); authentication obligations in Idle as well at the quick tier; OPTIONS where a rule lists it explicitly. Extended communities (route targets with symbolic administrator, colour) in the faithful-send obligations. IPv4-format route targets / origins in the faithful-send obligations; the gate right after a manual stop issued through the REST view.'
 TECHNIQUE = 'symbolic execution of the Flask views with symbolic credentials and request fields (CrossHair+z3) on the session world; independent RFC encoder as oracle for the bytes sent'
 EXPLANATION = 'C16: auth, state gate, faithful send through the real view functions.'
 BOUNDS = 'credentials: symbolic strings up to 6 characters; all 11 rules x methods; 5 session states; send shapes: IPv4 unicast with 4 attributes, withdraw, VPNv4 MP_REACH, route refresh, raw binary'
@@ -79,6 +79,12 @@ def ob_gate(x: int) -> bool:
     """valid credentials, session not Established: sending endpoints report failure and do nothing"""
     endpoint = P['endpoint']
     w = S.in_state(P['state'], hold=90, allow_auto=P.get('auto', True), closing=P.get('closing', False))
+    if P.get('after_stop'):
+        # an operator stop has just been issued (through the REST view): from here on the session is not Established,
+        # whether or not the TCP close has completed
+        r0 = rest.call('v1.manual_stop', '/v1/peer/%s/manual-stop' % PEER, 'GET', creds=('admin', 'admin'), view_args={'peer_ip': PEER})
+        if r0.status != 200:
+            return False
     before = snapshot(w)
     r = do_call(endpoint, 'POST', ('admin', 'admin'))
     cover('called')
@@ -135,7 +141,7 @@ def ob_send_update(med: int, a: int, b: int, las: int, ras: int, lp: int) -> boo
     exp_attrs = {1: E.origin(0), 2: E.as_path([(2, [las])], False), 3: E.next_hop(nh)}
     attr = {'1': 0, '2': [[2, [las]]], '3': '%s.%s.%s.%s' % (10, a, b, 1)}
     nlri, withdraw, exp_nlri, exp_wd = [], [], b'', b''
-    if shape in ('announce', 'announce+lp', 'announce+withdraw', 'announce+ext'):
+    if shape in ('announce', 'announce+lp', 'announce+withdraw', 'announce+ext', 'announce+ext-ip'):
         attr['4'] = med
         exp_attrs[4] = E.med(med)
         nlri = ['%s.%s.%s.%s/%s' % (172, a, 0, 0, 16)]
@@ -151,6 +157,14 @@ def ob_send_update(med: int, a: int, b: int, las: int, ras: int, lp: int) -> boo
         exp_attrs[16] = E.ext_communities([[0, 2] + list(E.u16(las)) + list(E.u32(lp % 65536)),
                                            [3, 0x0b, 0, 0] + list(E.u32(lp)),
                                            [0, 2] + list(E.u16(ras)) + list(E.u32(7))])
+    if shape == 'announce+ext-ip':
+        # route target / route origin with an IPv4 administrator, and a route origin in AS format (for which the view
+        # consults the capabilities the peer advertised)
+        assume(0 <= lp < 65536)
+        w.CONF.bgp.running_config['capability']['remote'] = {'four_bytes_as': False, 'route_refresh': True, 'afi_safi': [(1, 1)]}
+        attr['16'] = ['route-origin:10.%s.%s.1:%s' % (a, b, lp), 'route-target:10.%s.%s.2:%s' % (b, a, 7), 'route-origin:%s:%s' % (ras, lp)]
+        exp_attrs[16] = E.ext_communities([[1, 3, 10, a, b, 1] + list(E.u16(lp)), [1, 2, 10, b, a, 2] + list(E.u16(7)),
+                                           [0, 3] + list(E.u16(ras)) + list(E.u32(lp))])
     if shape in ('withdraw', 'announce+withdraw'):
         withdraw = ['%s.%s.%s.%s/%s' % (192, 168, b, 0, 24)]
         exp_wd = E.prefix([192, 168, b], 24)
@@ -264,7 +278,11 @@ def obligations(tier, seed):
             prm.update(extra)
             out.append(ob('C16/gate/%s/%s%s' % (endpoint, S.STATE_NAMES[st], ''.join('/%s=%s' % kv for kv in extra.items())),
                           'ob_gate', prm, covers=['called']))
-    for shape in ('announce', 'announce+lp', 'withdraw', 'announce+withdraw', 'announce+ext'):
+    for endpoint in GATED:
+        for st in (S.ESTABLISHED, S.OPENCONFIRM):
+            out.append(ob('C16/gate/%s/%s/after-manual-stop' % (endpoint, S.STATE_NAMES[st]), 'ob_gate',
+                          {'endpoint': endpoint, 'state': st, 'after_stop': True}, covers=['called']))
+    for shape in ('announce', 'announce+lp', 'withdraw', 'announce+withdraw', 'announce+ext', 'announce+ext-ip'):
         for ibgp in (True, False):
             out.append(ob('C16/send-update/%s/ibgp=%s' % (shape, ibgp), 'ob_send_update', {'shape': shape, 'ibgp': ibgp},
                           covers=['sent'], cap=250))
